@@ -8,9 +8,11 @@
                main._current_synthdef = self
                ... graph function, _finish_build ...
                main._current_synthdef = None
-           except Exception:
+           except Exception:                     # before the fix of F23 (bfin = false)
                main._current_synthdef = None
                raise
+   and, in the fixed code (bfin = true, regenerated flag gen/Gen_opcodes.build_finally),
+           try: ... finally: main._current_synthdef = None
    A unit generator created anywhere reads main._current_synthdef and, when it is not None,
    appends itself to that definition (_add_ugen).
 
